@@ -1,7 +1,8 @@
 #!/bin/bash
 # usage: tools/confirm_seeded.sh <seeded-id>: demo passes on /repo, fails on the patched tree; pinned suite passes on the patched tree
+ROOT=${VERIF_ROOT:-$(cd "$(dirname "$0")/.." && pwd)}   # the checkout this script lives in (a worktree of /verif works too)
 id=$1
-d=/verif/seeded/$id
+d=$ROOT/seeded/$id
 wt=/tmp/cw_$$
 git -C /repo worktree add -q --detach $wt HEAD || exit 9
 git -C $wt apply $d/patch.diff || { echo "$id: patch does not apply"; git -C /repo worktree remove --force $wt; exit 3; }
